@@ -322,8 +322,7 @@ def lua_predicates(meta, line):
         fails.append("outer context with a cpu limit lacks the cpusafe flag")
     if outer["status"] == "done" and "o-end" not in tags:
         fails.append("outer reports done but its body did not finish")
-    if outer["status"] != "done" and "o-end" in tags:
-        fails.append("outer body finished but status is %s" % outer["status"])
+    # (the converse is not observable: the limit can be hit after the last emit, while returning)
     if "inner" in reps and "outer-at-push" in reps:
         inner, op = reps["inner"], reps["outer-at-push"]
         left = op["kcpu"] - op["ucpu"]
@@ -430,6 +429,8 @@ def coq_crosscheck(ck, cases, model_lines, k=150):
 def run(tier, seed):
     ck = vlib.Check("C07", tier, seed, level="proof")
     ok_obl = ck.obligations(PROP, clean=False)
+    if tier == "thorough":
+        ck.coqchk(["GV.Properties.C07"])
     gvh, err = ck.build_gvh()
     if gvh is None:
         ck.violation("harness does not build against /repo", {"kind": "build", "stderr": err[-3000:]}, no_input=True)
